@@ -74,6 +74,10 @@ class Bd(Harness):
 
     def configs(self, tier):
         out = [dict(K=2, n=1, wf=False), dict(K=2, n=1, wf=True)]
+        # one object re-used in a power / noise sweep: the public attributes
+        # are re-assigned after construction (and after a first use)
+        out += [dict(K=2, n=1, wf=False, reassign=True),
+                dict(K=2, n=1, wf=True, reassign=True)]
         if tier != 'quick':
             # (K=3 with water-filling was tried: > 15 min for one unit)
             out += [dict(K=3, n=1, wf=False), dict(K=2, n=2, wf=False)]
@@ -89,7 +93,15 @@ class Bd(Harness):
         H = sym_array(ctx, 'H', (N, N), kind='complex')
         iPu = ctx.real('iPu', positive=True)
         nv = ctx.real('nv', positive=True)
-        obj = bd.BlockDiagonalizer(K, iPu, nv)
+        if cfg.get('reassign'):
+            obj = bd.BlockDiagonalizer(K, ctx.real('iPu0', positive=True),
+                                       ctx.real('nv0', positive=True))
+            obj.block_diagonalize_no_waterfilling(
+                sym_array(ctx, 'H0', (N, N), kind='complex'))
+            obj.iPu = iPu
+            obj.noise_var = nv
+        else:
+            obj = bd.BlockDiagonalizer(K, iPu, nv)
         if cfg['wf']:
             newH, Ms = obj.block_diagonalize(H)
         else:
@@ -143,7 +155,14 @@ class Bd(Harness):
         N = K * n
         H = crandn(rng, N, N)
         iPu, nv = rng.uniform(0.2, 3), rng.uniform(0.01, 1)
-        obj = bd.BlockDiagonalizer(K, iPu, nv)
+        if cfg.get('reassign'):
+            obj = bd.BlockDiagonalizer(K, rng.uniform(0.2, 3),
+                                       rng.uniform(0.01, 1))
+            obj.block_diagonalize_no_waterfilling(crandn(rng, N, N))
+            obj.iPu = iPu
+            obj.noise_var = nv
+        else:
+            obj = bd.BlockDiagonalizer(K, iPu, nv)
         newH, Ms = (obj.block_diagonalize(H) if cfg['wf'] else
                     obj.block_diagonalize_no_waterfilling(H))
         bad = []
@@ -172,7 +191,9 @@ class Bd(Harness):
         for seed in range(16):
             bad = self._numeric(cfg, random.Random(seed))
             if bad:
-                return dict(reproduced=True, key='C09/bd/' + '+'.join(bad),
+                return dict(reproduced=True, key='C09/bd/' + '+'.join(bad) + (
+                    ':after-reassigning-iPu/noise_var' if cfg.get('reassign')
+                    else ''),
                             detail=dict(seed=seed, cfg=cfg, bad=bad))
         return dict(reproduced=False, key=None, detail='no witness in 16 draws')
 
@@ -271,7 +292,7 @@ class Bd(Harness):
             bad = self._numeric(cfg, rng)
             assert not bad, bad
         # larger systems only concretely
-        big = dict(K=3, n=2, wf=cfg['wf'])
+        big = dict(K=3, n=2, wf=cfg['wf'], reassign=cfg.get('reassign'))
         assert not self._numeric(big, rng)
         k = 6
         if cfg['wf']:
